@@ -17,7 +17,8 @@ fn compare<T: BitRepr>(what: &str, c: &T, small: bool, out: &mut Outcome) -> boo
         let mut cs = CountSink::default();
         c.write(&mut cs).map_err(|e| format!("{e:?}"))?;
         let mut lens = vec![("CountSink", cs.bits)];
-        if small {
+        // materialise only what the counting sink (not count_bits itself) says is small
+        if small && cs.bits <= (1u128 << 28) {
             let mut a = MemSink::<u8>::new();
             c.write(&mut a).map_err(|e| format!("{e:?}"))?;
             let mut b = MemSink::<u64>::new();
@@ -277,12 +278,29 @@ pub fn check_header(c: &HdrCase) -> Outcome {
 
 pub fn run(ctx: &Ctx) {
     ctx.rule(
-        "every component of generated streams (stream, STREAMINFO, frames before/after precompute_bitstream, headers, subframes, residuals) and of the parsed stream: count_bits() == bits written to MemSink<u8> == MemSink<u64> == a counting sink, frames are whole bytes, parents equal the sum of their children; \
+        "every component of generated streams (general inputs, and loud 20/24-bit inputs with Rice parameters limited to 0..2 so that quotient sums reach 2^32) (stream, STREAMINFO, frames before/after precompute_bitstream, headers, subframes, residuals) and of the parsed stream: count_bits() == bits written to MemSink<u8> == MemSink<u64> == a counting sink, frames are whole bytes, parents equal the sum of their children; \
          directly constructed residuals (partition order 0..=8, parameters 0..=14, quotients up to 2^32-1 with the quotient sum forced to 2^32-1 / 2^32 / 2^32+1 and max*n straddling u32::MAX) compared with an independent u128 count; frame headers over the whole 31-bit frame-number and 36-bit start-sample ranges (boundary-dense); \
          non-trivial = component containing a residual or a multi-byte coded number",
     );
     let per = ctx.tier.scale(2000, 6);
     ctx.search("stream", 16, per, &|| stream_case_strategy(CfgOpts { max_block: 8192, ..Default::default() }, InOpts::default(), false), check_stream);
+    // loud wide content with restricted Rice parameters: quotient sums of 2^32 and more inside one residual
+    // (Frame::write always materialises the frame in its own scratch buffer, so a mis-counted frame of
+    // 2^32 bits costs seconds per evaluation: few shrink steps for this family)
+    let saved_shrink = ctx.shrink_iters.swap(24, std::sync::atomic::Ordering::Relaxed);
+    ctx.search("stream-heavy", 16, per / 2, &|| {
+        stream_case_strategy(CfgOpts { max_block: 2304, ..Default::default() }, InOpts { heavy: true, wide_bias: true, budget: 12_000, ..Default::default() }, false).prop_map(|mut c| {
+            if c.inp.seed % 2 == 0 {
+                c.cfg.max_parameter = (c.inp.seed / 2 % 3) as usize;
+            }
+            if c.inp.seed % 3 == 0 {
+                c.cfg.fixed_max_order = 0;
+                c.cfg.use_lpc = c.inp.seed % 2 == 1;
+            }
+            c
+        })
+    }, check_stream);
+    ctx.shrink_iters.store(saved_shrink, std::sync::atomic::Ordering::Relaxed);
     ctx.search("residual", 16, per * 4, &|| {
         (0usize..=8, prop_oneof![1usize..=8, 1usize..=70, Just(64usize)], 0usize..=4, proptest::collection::vec(0u8..=14, 1..=8), any::<u64>(), 0u8..=5)
             .prop_map(|(partition_order, part_len, warmup, params, seed, mode)| ResCase { partition_order, part_len, warmup, params, seed, mode })
